@@ -83,7 +83,7 @@ RangeKinds == { <<TRUE, n>> : n \in IF Thorough THEN 0..L ELSE {0, 3, L} }     \
 
 \* ef: family of the range; mixed: mask of the other family (refused); af: family of the overlay address relative
 \* to ef; decoy: a second entry of the other family that must never contribute; pf: port as YAML integer or string
-Params ==
+Params0 ==
     [ef : Fam, mixed : {FALSE}, af : {"same"}, a : AddrPats, m : MaskPats, ml : 0..L, p : GoodPorts,
      r : RangeKinds, decoy : {FALSE}, pf : {"int"}]
     \cup
@@ -95,6 +95,10 @@ Params ==
     \cup
     [ef : Fam, mixed : BOOLEAN, af : {"same"}, a : {<<0,1,1,0,1,0,0,1>>}, m : {<<1,0,1,1,0,0,1,0>>}, ml : {4},
      p : GoodPorts \cup BadPorts, r : {<<TRUE, 3>>, <<FALSE, 5>>}, decoy : {FALSE}, pf : {"int", "str"}]
+\* twin: the range carries a SECOND mask entry (complemented mask bits, next port): lighthouse.calculated_remotes maps a
+\* range to a LIST of masks and every entry of the list produces its own remote
+TwinOK(q) == ~q.decoy /\ ~q.mixed /\ q.pf = "int" /\ q.p \in GoodPorts /\ q.af = "same"
+Params == {q @@ [twin |-> FALSE] : q \in Params0} \cup {q @@ [twin |-> TRUE] : q \in {x \in Params0 : TwinOK(x)}}
 Keep(q) == TRUE
 
 Flip(bits, k) == [i \in 1..Len(bits) |-> IF i = k THEN 1 - bits[i] ELSE bits[i]]
@@ -103,7 +107,8 @@ Decoy(f) == [rfam |-> Other(f), rbits |-> [i \in 1..L |-> 0], rlen |-> 0,
 Build(q) ==
     LET e == [rfam |-> q.ef, rbits |-> IF q.r[1] THEN q.a ELSE Flip(q.a, q.r[2]), rlen |-> q.r[2],
               mfam |-> IF q.mixed THEN Other(q.ef) ELSE q.ef, mbits |-> q.m, mlen |-> q.ml, port |-> q.p]
-    IN [es |-> IF q.decoy THEN <<e, Decoy(q.ef)>> ELSE <<e>>, a |-> [fam |-> IF q.af = "same" THEN q.ef ELSE Other(q.ef), bits |-> q.a]]
+        e2 == [e EXCEPT !.mbits = [i \in 1..L |-> 1 - q.m[i]], !.port = IF q.p = 65535 THEN 65534 ELSE q.p + 1]
+    IN [es |-> IF q.twin THEN <<e, e2>> ELSE IF q.decoy THEN <<e, Decoy(q.ef)>> ELSE <<e>>, a |-> [fam |-> IF q.af = "same" THEN q.ef ELSE Other(q.ef), bits |-> q.a]]
 
 Expected(c) ==
     [err    |-> ~CfgOK(c.es),
